@@ -195,7 +195,13 @@ def decode(msg):
         return int(json.loads(msg)["payload"])
     if isinstance(msg, str) and msg.startswith("m"):
         return int(msg[1:])
+    if msg == "":
+        return 0      # message id 0 is the EMPTY STRING: falsy, but a legal payload of ThreadSocket.send
     return -1
+
+
+def encode_plain(m):
+    return "" if m == 0 else "m%d" % m
 
 
 class Sock(ThreadSocket):
@@ -307,7 +313,7 @@ class Worker(threading.Thread):
                 if structured:
                     sock.send_structured(StructuredMessage(header="h", payload=m))
                 else:
-                    sock.send("m%d" % m)
+                    sock.send(encode_plain(m))
                 self.res.append(["sent", kj, m])
             except ConnectionError:
                 self.res.append(["connErr", kj, m])
@@ -526,7 +532,7 @@ def oracle(case, settle_steps):
         ok = dl + q == sent or (infl is not None and infl[0] == k and dl + q == sent + [infl[1]])
         if not ok:
             fails.append({"what": "channel %s: delivered %s + queued %s is not the sent sequence %s "
-                                  "(exactly once, in order)" % (list(k), dl, q, sent), "key": list(k)})
+                                  "(exactly once, in order; message 0 is the empty string \"\")" % (list(k), dl, q, sent), "key": list(k)})
     for kj, q0, out in case["nb_seen"]:
         if q0 > 0 and out != "got":
             fails.append({"what": "non-blocking recv on %s reported %s although %d message(s) were queued"
@@ -534,8 +540,15 @@ def oracle(case, settle_steps):
     for tid, kj, n in case["nb_blocked"]:
         fails.append({"what": "non-blocking recv on %s by thread %d has not returned after %d steps "
                               "(it must report emptiness, not block)" % (kj, tid, n), "key": kj})
+    n_conn = {}
+    for t, prog in enumerate(case["progs"]):
+        for op in prog:
+            if op[0] == "c":
+                n_conn[(t, op[1], op[2])] = n_conn.get((t, op[1], op[2]), 0) + 1
     for tid, kj in case["stuck_in_connect"]:
         peer = tuple(rkey(tuple(kj)))
+        if n_conn.get(tuple(kj), 0) > 1 or n_conn.get(peer, 0) > 1:
+            continue   # after a disconnect the own side has removed the peer's key from _remote_sockets
         at = case["ever_open_at"].get(peer)
         # after the peer published, the waiting thread executes at most cWaitRemote + cWaitOpen + cWaitRemote
         # before it must see the peer
@@ -692,6 +705,11 @@ def _check_cases(cases, driver, summary, settle):
             summary["dist"]["callback-delivery"] = summary["dist"].get("callback-delivery", 0) + 1
         if c["structured"]:
             summary["dist"]["structured"] = summary["dist"].get("structured", 0) + 1
+        if any(sum(1 for o in p if o[0] == "c" and (o[1], o[2]) == (q[1], q[2])) > 1 for p in c["progs"] for q in p
+               if q[0] == "c"):
+            summary["dist"]["reconnect-history"] = summary["dist"].get("reconnect-history", 0) + 1
+        if any(r[0] in ("sent", "got") and r[2] == 0 for rs in c["res"] for r in rs):
+            summary["dist"]["empty-string-message"] = summary["dist"].get("empty-string-message", 0) + 1
         if "error" in m:
             df = {"step": -1, "why": m["error"]}
         else:
@@ -813,7 +831,7 @@ def gen_programs(rng, n_nodes=None, max_ops=4):
             other = b if t == a else a
             if rng.random() < 0.55:
                 mid += 1
-                plan[t].append(("s", other, sid, mid))
+                plan[t].append(("s", other, sid, 0 if rng.random() < 0.25 else mid))
                 n_send[(other, t, sid)] = n_send.get((other, t, sid), 0) + 1
             else:
                 plan[t].append(("r", other, sid, None))
@@ -834,6 +852,9 @@ def gen_programs(rng, n_nodes=None, max_ops=4):
                 first = len([o for o in progs[t] if o[0] == "c"])
                 pos = rng.randrange(first, len(progs[t]) + 1)
                 progs[t].insert(pos, ("d", other, sid))
+                if rng.random() < 0.25:     # disconnect-reconnect history: the same key, a new socket object
+                    pos2 = rng.randrange(pos + 1, len(progs[t]) + 1)
+                    progs[t].insert(pos2, ("c", other, sid, int(cb[(t, other, sid)])))
     return progs, structured
 
 
@@ -859,7 +880,8 @@ def build_pair(pa, pb):
         for o in seq:
             if o == "s":
                 mid += 1
-                p.append(("s", other, 0, mid))
+                first0 = t == 0 and not any(x[0] == "s" for x in p)
+                p.append(("s", other, 0, 0 if first0 else mid))
             else:
                 p.append(("r", other, 0, 1 if o == "rb" else 0))
         if disc:
